@@ -134,8 +134,11 @@ func (fe *FnExec) declare(name, sort string) Term {
 
 func (fe *FnExec) assume(t Term, why string) {
 	if fe.clauseErr != "" {
-		// a clause that cannot be evaluated is not assumed (sound: fewer facts)
-		fe.clauseErr = ""
+		// a clause that cannot be evaluated is not assumed (sound: fewer facts); an auxiliary fact produced while a
+		// clause is still being evaluated must not swallow the failure of that clause
+		if fe.evalDepth == 0 {
+			fe.clauseErr = ""
+		}
 		return
 	}
 	if t == "true" {
